@@ -553,6 +553,25 @@ class World:
         if kind == 'commit':
             self.write('manual_%d.txt' % self.clock, 'manual\n')
             sha = self.commit('manual commit on ' + wname, author=author)
+        elif kind == 'merge_src':
+            # documented conflict-resolution procedure: merge the source
+            # branch into the integration branch by hand
+            src = wname.split('/', 2)[2]
+            if src not in self.heads():
+                self.g('checkout', '-q', '--detach')
+                return None
+            rc, _, _ = self.g('-c', 'user.name=' + author, 'merge', '-q',
+                              '--no-ff', '--no-edit', 'origin/' + src,
+                              check=False)
+            if rc != 0:
+                self.g('merge', '--abort', check=False)
+                self.g('checkout', '-q', '--detach')
+                return None
+            head = self.g('rev-parse', 'HEAD').strip()
+            if head == self.g('rev-parse', 'origin/' + wname).strip():
+                self.g('checkout', '-q', '--detach')
+                return None   # already up to date: nothing was made
+            sha = head
         else:
             self.g('checkout', '-q', '-B', 'vf-side', 'origin/' + wname + '~1'
                    if self._has_parent('origin/' + wname) else
@@ -563,7 +582,7 @@ class World:
             self.g('-c', 'user.name=' + author, 'merge', '-q', '--no-ff',
                    '--no-edit', 'vf-side')
             sha = self.g('rev-parse', 'HEAD').strip()
-        rc, _, _ = self.push('vf-w:refs/heads/' + wname, check=False)
+        rc = self.push('vf-w:refs/heads/' + wname, check=False)[0]
         self.g('checkout', '-q', '--detach')
         self.note_commits()
         if rc != 0:
